@@ -82,6 +82,9 @@ class Sig:
         lines = []
         if self.kind == 'def':
             lines.append('def f(%s):\n    return %s\n' % (self.params(), self.retexpr()))
+        elif self.kind == 'decdef':
+            # a decorated definition: the decorators sit on the stack under the defaults while the function object is made
+            lines.append('def dec(f):\n    return f\ndef dec2(x):\n    return dec\n@dec\n@dec2(0)\ndef f(%s):\n    return %s\n' % (self.params(), self.retexpr()))
         else:
             lines.append('f = lambda %s: %s\n' % (self.params(), self.retexpr()))
         # printer: one token per parameter
@@ -97,7 +100,7 @@ class Sig:
         return ''.join(lines)
 
 
-def all_signatures(kinds=('def', 'lambda')):
+def all_signatures(kinds=('def', 'lambda', 'decdef')):
     out = []
     posopts = [[]]
     posopts += [[('a', False)], [('a', True)]]
